@@ -1,26 +1,31 @@
 // vreplay: conformance harness binding the TLA+ specifications in /verif/spec
 // to the real bmeg/grip code.  Usage: vreplay <family> [flags] < in.ndjson > out.ndjson
+// Families register themselves in reg_*.go files.
 package main
 
 import (
 	"fmt"
 	"os"
-
-	"verifharness/has"
-	"verifharness/sup"
+	"sort"
 )
+
+var registry = map[string]func(name string, args []string){}
 
 func main() {
 	if len(os.Args) < 2 {
-		fmt.Fprintln(os.Stderr, "usage: vreplay <family> [flags]")
+		names := []string{}
+		for k := range registry {
+			names = append(names, k)
+		}
+		sort.Strings(names)
+		fmt.Fprintln(os.Stderr, "usage: vreplay <family> [flags]; families:", names)
 		os.Exit(2)
 	}
 	name, args := os.Args[1], os.Args[2:]
-	switch name {
-	case "has":
-		sup.Main(name, args, has.New)
-	default:
-		fmt.Fprintf(os.Stderr, "unknown family %q\n", name)
-		os.Exit(2)
+	if f, ok := registry[name]; ok {
+		f(name, args)
+		return
 	}
+	fmt.Fprintf(os.Stderr, "unknown family %q\n", name)
+	os.Exit(2)
 }
